@@ -136,12 +136,27 @@ Theorem C08_histories_total : forall ops v it, dinv v -> is_response (pp_packet 
 Proof. exact hops2_tol_total. Qed.
 Print Assumptions C08_histories_total.
 
-(** histories that also delete non-OPT records and change their TTLs and owner names through a cursor put on the record with the iterator's own
+(** histories that also delete non-OPT records and change their TTLs, addresses and owner names through a cursor put on the record with the iterator's own
     set_offset and recompute (Proofs/CursorHist.v): every operation applicable where it is applied ([ok_along]) *)
 Theorem C08_histories_with_cursor : forall ops v it s', dinv v -> is_response (pp_packet v) -> it_section it <> SQuestion ->
   ok_along ops (v, it) -> run_hops3 ops (v, it) = (s', Ok tt) -> dinv (fst s') /\ snd s' = it /\ is_response (pp_packet (fst s')).
 Proof. exact hops3_keep_dinv. Qed.
 Print Assumptions C08_histories_with_cursor.
+
+(** ... and every such history runs to the end: no step has a Panic outcome (no assertion, slice, subtraction or unwrap of the code
+    fails), a step that reports an error (name refused, packet too large, wrong address family, record refused) changes nothing *)
+Theorem C08_histories_with_cursor_total : forall ops v it, dinv v -> is_response (pp_packet v) -> it_section it <> SQuestion ->
+  ok_along_tol ops (v, it) ->
+  exists s', run_hops3_tol ops (v, it) = (s', Ok tt) /\ dinv (fst s') /\ snd s' = it /\ is_response (pp_packet (fst s')).
+Proof. exact hops3_tol_total. Qed.
+Print Assumptions C08_histories_with_cursor_total.
+
+Example C08_tolerant_cursor_run_means :
+  (forall o ops s, run_hops3_tol (o :: ops) s =
+     match run_hop3 o s with (s1, Ok _) => run_hops3_tol ops s1 | (s1, Err _) => run_hops3_tol ops s1 | (s1, Panic x) => (s1, Panic x) end) /\
+  (forall o ops s, ok_along_tol (o :: ops) s =
+     (hop3_ok_at (fst s) o /\ match run_hop3 o s with (s1, Ok _) => ok_along_tol ops s1 | (s1, Err _) => ok_along_tol ops s1 | _ => True end)).
+Proof. split; reflexivity. Qed.
 
 Example C08_cursor_history_vocabulary :
   (forall o, run_hop3 o = match o with
@@ -149,6 +164,7 @@ Example C08_cursor_history_vocabulary :
                           | H3Delete off => with_cursor off m_delete
                           | H3SetTtl off t => with_cursor off (m_set_ttl t)
                           | H3SetName off nm => with_cursor off (m_set_raw_name nm)
+                          | H3SetIp off ip => with_cursor off (m_set_ip ip)
                           end) /\
   (forall off m s, with_cursor off m s = let '(s1, r) := ((m_set_offset off ;;- m_recompute_rr) ;;- m) s in ((fst s1, snd s), r)) /\
   (forall v o, hop3_ok_at v o = match o with
@@ -156,6 +172,7 @@ Example C08_cursor_history_vocabulary :
                                 | H3Delete off => record_starts v off
                                 | H3SetTtl off t => record_starts v off /\ (t < 4294967296)%N
                                 | H3SetName off nm => record_starts v off /\ bytes_ok nm
+                                | H3SetIp off ip => record_starts v off /\ bytes_ok ip
                                 end) /\
   (forall v off, record_starts v off <->
      exists qls qt lA lN lR r x, reading (pp_packet v) qls qt lA lN lR /\ In (r, x) (lA ++ lN ++ lR) /\ is_opt r = false /\ rv_off r = off) /\
